@@ -52,14 +52,14 @@ def build (j : Json) : Option (Except String Env) := do
     let loop ← jOptInt (getD j "loop")
     let off ← jRat (getD j "offset")
     some (.ok (Env.new lv tm cs rel loop off))
-  | "triangle", [d, l] => some (.ok (Env.triangle d l))
-  | "sine", [d, l] => some (.ok (Env.sine d l))
-  | "perc", [a, r, l] => some (.ok (Env.perc a r l curve))
-  | "linen", [a, s, r, l] => some (.ok (Env.linen a s r l curve))
+  | "triangle", [d, l] => some (.ok (GenC.triangle d l))
+  | "sine", [d, l] => some (.ok (GenC.sine d l))
+  | "perc", [a, r, l] => some (.ok (GenC.perc a r l curve))
+  | "linen", [a, s, r, l] => some (.ok (GenC.linen a s r l curve))
   | "cutoff", [r, l] => some (Env.cutoff r l curve)
-  | "dadsr", [dl, a, d, s, r, p, b] => some (.ok (Env.dadsr dl a d s r p curve b))
-  | "adsr", [a, d, s, r, p, b] => some (.ok (Env.adsr a d s r p curve b))
-  | "asr", [a, s, r] => some (.ok (Env.asr a s r curve))
+  | "dadsr", [dl, a, d, s, r, p, b] => some (.ok (GenC.dadsr dl a d s r p curve b))
+  | "adsr", [a, d, s, r, p, b] => some (.ok (GenC.adsr a d s r p curve b))
+  | "asr", [a, s, r] => some (.ok (GenC.asr a s r curve))
   | "step", _ =>
     let lv ← jRats (getD j "levels")
     let tm ← jRats (getD j "times")
